@@ -26,6 +26,27 @@ Definition mll_value (logp : car) (priors added : list car) (ndata : car) : car 
 (* SumMarginalLogLikelihood.forward: sum of the member objectives / number of members *)
 Definition sum_mll_value (mlls : list car) : car := csum mlls / of_nat (length mlls).
 
+(* SumMarginalLogLikelihood.forward(outputs, targets, *params): member k is called with output k, target k
+   and, when params are given, ITS OWN argument list params[k] (length_safe_zip: any length mismatch is an
+   error).  [call] is the member objective as a function of (member, output, target, optional own params). *)
+Section SumRouting.
+Context {Mem Out Tgt Par : Type}.
+Fixpoint sum_route (call : Mem -> Out -> Tgt -> option Par -> car)
+         (ms : list Mem) (os : list Out) (ts : list Tgt) (ps : option (list Par)) : option (list car) :=
+  match ms, os, ts with
+  | [], [], [] => match ps with None | Some [] => Some [] | Some (_ :: _) => None end
+  | m :: ms', o :: os', t :: ts' =>
+      match ps with
+      | None => option_map (cons (call m o t None)) (sum_route call ms' os' ts' None)
+      | Some (p :: ps') => option_map (cons (call m o t (Some p))) (sum_route call ms' os' ts' (Some ps'))
+      | Some [] => None
+      end
+  | _, _, _ => None
+  end.
+Definition sum_mll_call (call : Mem -> Out -> Tgt -> option Par -> car) ms os ts ps : option car :=
+  option_map sum_mll_value (sum_route call ms os ts ps).
+End SumRouting.
+
 (* ---- leave one out -------------------------------------------------------------------- *)
 (* index map that skips position i:  0..i-1, i+1.. *)
 Definition skip (i k : nat) : nat := if Nat.ltb k i then k else S k.
